@@ -6,11 +6,12 @@ q + delta(ri).  Every region loop fixes  delta(ri) = min_ci(ri) - wpsi_0(ri)  wh
 to at the top of the row; the two advance in lock-step, so the relation holds for every cell written in the row.
 """
 from ..cfront import AnalysisError
-from ..ir import fmt, walk_stmts, walk_expr, stmt_exprs, dotted, sub_blocks, orient
+from ..ir import fmt, walk_stmts, walk_expr, stmt_exprs, dotted, sub_blocks, orient, aug_rhs
 from .. import sym, kernels, symexec
 from ..sym import var as V, const as C, add, sub, tmin, tmax, scale
 from ..symexec import Exec, Env, subst_expr, norm_minmax, assigned_vars, reads_of
 from . import kern
+from ..canon import same, canon_expr
 from ..model import calls_in
 from .iterspace import paths_increments, _run_until as iterspace_run_until
 
@@ -192,8 +193,8 @@ def analyse_writer(m, fname):
         for v in assigned_vars(top) - {loop.var}:
             ta = _top_assigns(top, v)
             alla = [s for s in walk_stmts(top) if s.k == 'assign' and s.target == ('var', v)]
-            if len(ta) == 1 and len(alla) == 1 and ta[0].d.get('aug') == '+' and not (set(x[1] for x in walk_expr(ta[0].value[3]) if x[0] == 'var') & assigned_vars(top)):
-                R.steps[v] = ta[0].value[3]
+            if len(ta) == 1 and len(alla) == 1 and ta[0].d.get('aug') == '+' and not (set(x[1] for x in walk_expr(aug_rhs(ta[0])) if x[0] == 'var') & assigned_vars(top)):
+                R.steps[v] = aug_rhs(ta[0])
         # entry env for one iteration: affine vars at iteration ri: v_in + step*(ri - lo)
         ienv = env.copy()
         ienv[loop.var] = ('var', 'ri')
@@ -658,7 +659,7 @@ def _region_rules(ctx, R, amap, pdefs, affinity):
             st = [t for t in lp.body if t.k == 'assign' and t.target == ('idx', ('var', 'wps'), ('var', lp.var)) and t.value == ('num', -INF if affinity else INF)]
             lo_e = subst_expr(lp.lo, e[3])
             hi_e = subst_expr(lp.hi, e[3])
-            if st and lo_e == ('bin', '+', ('var', 'RW'), ('var', R.wvar + '@out')) and hi_e == ('bin', '+', ('var', 'RW'), ('attr', ('var', 'p'), 'width')):
+            if st and same(lo_e, ('bin', '+', ('var', 'RW'), ('var', R.wvar + '@out'))) and same(hi_e, ('bin', '+', ('var', 'RW'), ('attr', ('var', 'p'), 'width'))):
                 okf = True
     ctx.check(okf, 'R-PATH', R.file, fname, 'region %s suffix fill' % R.name,
               'after the column loop the rest of the row [cur + %s, cur + width) must be filled with %s' % (R.wvar, '-inf' if affinity else 'inf'), R.loop.line)
@@ -1241,10 +1242,13 @@ def rule_affinity(ctx, m, tier='quick'):
             outer_ok = value[0] == 'max' and ('num', 0) in value[1] and len(value[1]) == 2
             body = [x for x in value[1] if x != ('num', 0)][0] if outer_ok else None
             if below:
-                ok = outer_ok and body == ('bin', '+', ('var', 'delta'), ('bin', '*', ('var', 'delta_factor'), node))
+                ok = outer_ok and same(body, ('bin', '+', ('var', 'delta'), ('bin', '*', ('var', 'delta_factor'), node)))
                 arms['below'] = ok
             elif above:
-                ok = outer_ok and body[0] == 'bin' and body[1] == '+' and body[3] == node and 'exp' in fmt(body[2]) and 'gamma' in fmt(body[2])
+                ok = outer_ok and body[0] == 'bin' and body[1] == '+' and node in (body[2], body[3])
+                if ok:
+                    aff = body[2] if body[3] == node else body[3]
+                    ok = 'exp' in fmt(aff) and 'gamma' in fmt(aff)
                 arms['above'] = ok
             ctx.check(ok, 'R-REC', F.file, F.name, 'affinity arm (%s tau)' % ('below' if below else 'above'),
                       'below tau: max(0, delta + delta_factor * prev); otherwise max(0, exp(-gamma * diff^2) + prev); found %s' % fmt(value)[:160], st[4].line)
@@ -1514,8 +1518,8 @@ def _reader_region(f, loop, env, amap):
     for v in assigned_vars(top) - {loop.var}:
         ta = _top_assigns(top, v)
         alla = [s for s in walk_stmts(top) if s.k == 'assign' and s.target == ('var', v)]
-        if len(ta) == 1 and len(alla) == 1 and ta[0].d.get('aug') == '+' and not (set(x[1] for x in walk_expr(ta[0].value[3]) if x[0] == 'var') & assigned_vars(top)):
-            R.steps[v] = ta[0].value[3]
+        if len(ta) == 1 and len(alla) == 1 and ta[0].d.get('aug') == '+' and not (set(x[1] for x in walk_expr(aug_rhs(ta[0])) if x[0] == 'var') & assigned_vars(top)):
+            R.steps[v] = aug_rhs(ta[0])
     ienv = env.copy()
     ienv[loop.var] = ('var', 'ri')
     for v, st in R.steps.items():
@@ -1744,8 +1748,8 @@ def rule_best_path_moves(ctx, m):
                             continue
                         op_, l, r = ox
                         pen = False
-                        if r[0] == 'bin' and r[1] == '+' and r[3] == ('attr', ('var', 'p'), 'penalty'):
-                            r, pen = r[2], True
+                        if r[0] == 'bin' and r[1] == '+' and ('attr', ('var', 'p'), 'penalty') in (r[2], r[3]):
+                            r, pen = (r[2] if r[3] == ('attr', ('var', 'p'), 'penalty') else r[3]), True
                         if l[0] == 'idx' and l[1] == ('var', 'wps') and r[0] == 'idx' and r[1] == ('var', 'wps'):
                             out.append((op_, pos(l[2]), pos(r[2]), pen))
                 return out
